@@ -113,7 +113,7 @@ Print Assumptions C04_is_bare_translated.
    panics as the explicit flag `crashed`); Model/C04_scan.v runs it the way every caller does (reset, one step per
    byte, eof) and states bracket balance independently.  The theorems hold for ALL byte strings, no bound. *)
 From GoMC Require Gen.Scanner Model.C04_scan Proofs.C04_scan Proofs.C04_scan_inv Proofs.C04_scan_shape
-  Proofs.C04_scan_sim Proofs.C04_scan_bal Proofs.C04_scan_cls Proofs.C04_scan_ex.
+  Proofs.C04_scan_sim Proofs.C04_scan_bal Proofs.C04_scan_cls Proofs.C04_scan_ex Proofs.C04_scan_count.
 Import Gen.Scanner Model.C04_scan.
 Local Open Scope Z_scope.
 
@@ -156,6 +156,19 @@ Theorem C04_scan_opcode_stack : forall (t : list Z) (c : Z),
   let s := fst (scan_bytes scan_init t) in
   C04_scan_shape.step_shape s c (fst (scan_step s c)) (snd (scan_step s c)).
 Proof. exact C04_scan_shape.scan_opcode_stack. Qed.
+
+(* (c) in counting form: as long as no byte has been answered scanError, the depth of the parse stack is the number of
+   scanBeginCompound / scanBeginList opcodes minus the number of scanEndValue opcodes; an accepted text has as many of
+   the one as of the other *)
+Theorem C04_scan_depth_counts : forall text : list Z,
+  let '(s, ops) := scan_bytes scan_init text in
+  ~ In nbt_scanError ops ->
+  sl_len (parseState s) = C04_scan_count.opcount C04_scan_count.is_push ops - C04_scan_count.opcount C04_scan_count.is_pop ops.
+Proof. exact C04_scan_count.scan_depth_counts. Qed.
+Theorem C04_scan_accept_counts : forall text : list Z, scan_accepts text = true ->
+  C04_scan_count.opcount C04_scan_count.is_push (snd (scan_bytes scan_init text)) =
+  C04_scan_count.opcount C04_scan_count.is_pop (snd (scan_bytes scan_init text)).
+Proof. exact C04_scan_count.accepted_counts. Qed.
 
 (* (c) a text the scanner accepts (eof() answers scanEnd) has balanced brackets outside string literals, by the
    independent reading `balanced` of Model/C04_scan.v *)
@@ -229,6 +242,8 @@ Print Assumptions C04_scan_depth_bound.
 Print Assumptions C04_scan_error_sticky.
 Print Assumptions C04_scan_accept_no_error.
 Print Assumptions C04_scan_opcode_stack.
+Print Assumptions C04_scan_depth_counts.
+Print Assumptions C04_scan_accept_counts.
 Print Assumptions C04_scan_accept_balanced.
 Print Assumptions C04_scan_ws_translated.
 Print Assumptions C04_scan_top_translated.
